@@ -502,6 +502,151 @@ func runC03(c *engine.Ctx) {
 	li := engine.AnalyzeLocks(p)
 	c16ChannelsPrefixed(c, li, "R6")
 
+	// ---- R8 the datagram read loops end only on an error ----
+	c.Rule("R8", "after a datagram was read, the read loops of ForwardUserConn / Forwarder return only when the read (or the recovered enqueue) reported an error: a zero-length or otherwise unusual datagram must not end the forwarding for every user")
+	n8 := 0
+	for _, sym := range []string{"pkg/proto/udp.ForwardUserConn", "pkg/proto/udp.Forwarder"} {
+		f := fn(c, sym)
+		if f == nil {
+			continue
+		}
+		for _, g := range append([]*ssa.Function{f}, allAnon(f)...) {
+			g := g
+			engine.ForEachInstr(g, func(in ssa.Instruction) {
+				call, ok := in.(*ssa.Call)
+				if !ok {
+					return
+				}
+				o := engine.CalleeObj(call)
+				if o == nil || !(o.Name() == "ReadFromUDP" || o.Name() == "Read") || engine.LoopHeader(call.Block()) == nil {
+					return
+				}
+				tup, ok := call.Type().(*types.Tuple)
+				if !ok {
+					return
+				}
+				errIdx := tup.Len() - 1
+				n8++
+				c.AllPaths(fmt.Sprintf("%s>read-loop-exit", p.FuncName(g)), engine.PathCheck{Fn: g, From: call, KeepLoopFacts: true,
+					Sink: func(x ssa.Instruction) bool { return engine.IsReturn(x) || x == ssa.Instruction(call) },
+					Pred: func(st *engine.PathState) string {
+						if !engine.IsReturn(st.Sink) {
+							return ""
+						}
+						// some error value was found non-nil on this path (the read's, or the recovered send's)
+						for _, l := range st.Lits {
+							if l.Op != token.EQL || l.Val {
+								continue
+							}
+							x, y := l.X, l.Y
+							if engine.IsNilConst(x) {
+								x, y = y, x
+							}
+							if !engine.IsNilConst(y) {
+								continue
+							}
+							if types.Identical(x.Type(), types.Universe.Lookup("error").Type()) {
+								if cl, i := engine.ResultOfCall(x); cl != nil && (cl != call || i == errIdx) {
+									return ""
+								}
+							}
+						}
+						return "the read loop returns on a path where no error was reported: one unusual datagram (for instance an empty one) ends the forwarding for all users"
+					}}, "the loop ends only on an error")
+			})
+		}
+	}
+	c.Floor(n8, 2)
+
+	// ---- R9 a close signal somebody waits for ----
+	c.Rule("R9", "a channel that a function creates and (a goroutine of it) closes is also received from by another goroutine of that function: a per-connection close signal nobody waits on leaves the peer goroutine parked on a dead connection")
+	n9 := 0
+	for _, f := range p.RepoFuncs() {
+		if f.Pkg == nil || !(strings.HasSuffix(f.Pkg.Pkg.Path(), "/client/visitor") || strings.HasSuffix(f.Pkg.Pkg.Path(), "/client/proxy") || strings.HasSuffix(f.Pkg.Pkg.Path(), "/server/proxy") || strings.HasSuffix(f.Pkg.Pkg.Path(), "/pkg/proto/udp")) {
+			continue
+		}
+		f := f
+		engine.ForEachInstr(f, func(in ssa.Instruction) {
+			mk, ok := in.(*ssa.MakeChan)
+			if !ok {
+				return
+			}
+			closed, received, escapes := false, false, false
+			var visit func(v ssa.Value, d int)
+			seen := map[ssa.Value]bool{}
+			visit = func(v ssa.Value, d int) {
+				if seen[v] || d > 6 || v.Referrers() == nil {
+					return
+				}
+				seen[v] = true
+				for _, r := range *v.Referrers() {
+					switch x := r.(type) {
+					case *ssa.Store:
+						if x.Val == v {
+							if al, ok := x.Addr.(*ssa.Alloc); ok {
+								visit(al, d+1) // the cell; loads of it below
+							} else {
+								escapes = true
+							}
+						}
+					case *ssa.UnOp:
+						if x.Op == token.ARROW {
+							received = true
+						} else if x.Op == token.MUL {
+							visit(x, d+1)
+						}
+					case *ssa.Select:
+						for _, stt := range x.States {
+							if stt.Chan == v && stt.Dir == types.RecvOnly {
+								received = true
+							}
+						}
+					case *ssa.MakeClosure:
+						if cf, ok := x.Fn.(*ssa.Function); ok {
+							for i, b := range x.Bindings {
+								if b == v && i < len(cf.FreeVars) {
+									visit(cf.FreeVars[i], d+1)
+								}
+							}
+						}
+					case *ssa.ChangeType:
+						visit(x, d+1)
+					case *ssa.MakeInterface, *ssa.Return, *ssa.Send, *ssa.MapUpdate:
+						escapes = true
+					case ssa.CallInstruction:
+						if b, ok := x.Common().Value.(*ssa.Builtin); ok && b.Name() == "close" {
+							closed = true
+						} else if _, isB := x.Common().Value.(*ssa.Builtin); !isB {
+							// passed to a function: follow into a repo callee's parameter
+							if cf := engine.CalleeFn(x); cf != nil && cf.Blocks != nil {
+								for i, a := range x.Common().Args {
+									if a == v && i < len(cf.Params) {
+										visit(cf.Params[i], d+1)
+									}
+								}
+								if mc, ok := x.Common().Value.(*ssa.MakeClosure); ok {
+									_ = mc
+								}
+							} else {
+								escapes = true
+							}
+						}
+					case *ssa.Range:
+						received = true
+					}
+				}
+			}
+			visit(mk, 0)
+			if !closed || escapes {
+				return
+			}
+			n9++
+			c.Check(received, fmt.Sprintf("%s>close-signal#%d", p.FuncName(f), n9), mk.Pos(), len(seen), nil,
+				"the channel created here is closed as a signal and some goroutine receives from it")
+		})
+	}
+	c.Floor(n9, 1)
+
 	// ---- R7 wrapper stacks (shared with C01.R1 / C05.R5) ----
 	checkStacks(c, "R7")
 }
